@@ -25,6 +25,7 @@ import (
 	"encoding/binary"
 	"encoding/hex"
 	"fmt"
+	"math"
 	"net/netip"
 	"os"
 	"path/filepath"
@@ -149,6 +150,71 @@ func c19Nlri(r *vRand, fam bgp.Family) (bgp.NLRI, error) {
 		return bgp.NewFlowSpecUnicast(fam, []bgp.FlowSpecComponentInterface{bgp.NewFlowSpecDestinationPrefix(ip)})
 	}
 	return nil, fmt.Errorf("no generator for %s", fam)
+}
+
+// what the Go parser sees in a BMP message of type 0 / 2 / 3, in the vocabulary of the Lean model
+// (Framing.Bmp.parseMsg2): embedded BGP messages as octets
+func c19Msg2Str(m *bmp.BMPMessage, opts []*bgp.MarshallingOption) string {
+	ph := &m.PeerHeader
+	s0 := math.Floor(ph.Timestamp)
+	sec, usec := uint64(s0), uint64(math.Round((ph.Timestamp-s0)*1e6))
+	hx := func(b []byte) string {
+		if len(b) == 0 {
+			return "-"
+		}
+		return hex.EncodeToString(b)
+	}
+	var sb strings.Builder
+	fmt.Fprintf(&sb, "ok %d %d %d peer %d %d %d %s %d %s %d %d ", m.Header.Version, m.Header.Length, m.Header.Type, ph.PeerType, ph.Flags, ph.PeerDistinguisher,
+		hx(ph.PeerAddress.AsSlice()), ph.PeerAS, hx(ph.PeerBGPID.AsSlice()), sec, usec)
+	info := func(l []bmp.BMPInfoTLVInterface) {
+		fmt.Fprintf(&sb, "%d", len(l))
+		for _, t := range l {
+			switch x := t.(type) {
+			case *bmp.BMPInfoTLVString:
+				fmt.Fprintf(&sb, " %d %s", x.Type, hx([]byte(x.Value)))
+			case *bmp.BMPInfoTLVUnknown:
+				fmt.Fprintf(&sb, " %d %s", x.Type, hx(x.Value))
+			}
+		}
+	}
+	switch b := m.Body.(type) {
+	case *bmp.BMPRouteMonitoring:
+		u, _ := b.BGPUpdate.Serialize(opts...)
+		sb.WriteString("rm " + hx(u))
+	case *bmp.BMPPeerUpNotification:
+		s, _ := b.SentOpenMsg.Serialize()
+		r, _ := b.ReceivedOpenMsg.Serialize()
+		fmt.Fprintf(&sb, "up %s %d %d %s %s info ", hx(b.LocalAddress.AsSlice()), b.LocalPort, b.RemotePort, hx(s), hx(r))
+		info(b.Info)
+	case *bmp.BMPPeerDownNotification:
+		switch b.Reason {
+		case 1, 3:
+			nb, _ := b.BGPNotification.Serialize()
+			fmt.Fprintf(&sb, "downmsg %d %s", b.Reason, hx(nb))
+		case 6:
+			sb.WriteString("downinfo ")
+			info(b.Info)
+		default:
+			fmt.Fprintf(&sb, "down %d %s", b.Reason, hx(b.Data))
+		}
+	default:
+		return "?"
+	}
+	return sb.String()
+}
+
+func c19SrvAttrBytes(e *mrt.RibEntry) []byte {
+	var b []byte
+	for _, a := range e.PathAttributes {
+		ab, _ := a.Serialize(&bgp.MarshallingOption{MRT: true})
+		b = append(b, ab...)
+	}
+	return b
+}
+
+func c19SrvPeerEnt(p *mrt.Peer) string {
+	return fmt.Sprintf("%d %s %s %d", p.Type, c19SrvHex(p.BgpId.AsSlice()), c19SrvHex(p.IpAddress.AsSlice()), p.AS)
 }
 
 func c19StartServer(t *testing.T) *BgpServer {
@@ -465,6 +531,7 @@ func c19Round(t *testing.T, o *vOut, r *vRand, round int) {
 		gotPID := map[string]int{}   // entry of an ADD-PATH record, with path id -> count
 		gotCount := map[string]int{} // family prefix -> entries
 		gotSub := map[string][]int{} // family prefix -> subtypes of its records
+		var tabBody []byte
 		for i, tk := range toks {
 			h, err := mrt.ParseHeader(tk)
 			if err != nil {
@@ -477,8 +544,18 @@ func c19Round(t *testing.T, o *vOut, r *vRand, round int) {
 				o.fail("mrt-dump-unparseable", map[string]any{"subtype": h.SubType, "record": c19SrvHex(tk), "err": err.Error()})
 				continue
 			}
+			body := tk[mrt.MRT_COMMON_HEADER_LEN:]
 			switch b := m.Body.(type) {
 			case *mrt.PeerIndexTable:
+				{ // the model reads the daemon's peer table
+					var sb strings.Builder
+					fmt.Fprintf(&sb, "ok %s %s %d", c19SrvHex(b.CollectorBgpId.AsSlice()), c19SrvHex([]byte(b.ViewName)), len(b.Peers))
+					for _, p := range b.Peers {
+						sb.WriteString(" " + c19SrvPeerEnt(p))
+					}
+					o.ask(sb.String(), "mrt.ptab %s", c19SrvHex(body))
+					tabBody = body
+				}
 				if i != 0 {
 					o.fail("mrt-dump-peer-table-not-first", i)
 				}
@@ -504,6 +581,27 @@ func c19Round(t *testing.T, o *vOut, r *vRand, round int) {
 					o.fail("mrt-dump-family-roundtrip:"+fam.String(), map[string]any{"what": "subtype", "subtype": st, "rfc_subtype": want, "prefix": b.Prefix.String()})
 				}
 				o.stat(fmt.Sprintf("dump_record_%s_subtype%d", fam, st), 1)
+				{ // the model reads the daemon's RIB record, names its subtype and attributes its entries
+					var sb strings.Builder
+					nl, _ := b.Prefix.Serialize()
+					fmt.Fprintf(&sb, "ok %d %d %d %s %d", b.SequenceNumber, b.Family.Afi(), b.Family.Safi(), c19SrvHex(nl), len(b.Entries))
+					for _, e := range b.Entries {
+						fmt.Fprintf(&sb, " %d %d %d %s", e.PeerIndex, e.OriginatedTime, e.PathIdentifier, c19SrvHex(c19SrvAttrBytes(e)))
+					}
+					o.ask(sb.String(), "mrt.rib %d %d %s", st, b.Prefix.Len(), c19SrvHex(body))
+					apN := 0
+					if addPath {
+						apN = 1
+					}
+					o.ask(fmt.Sprint(int(st)), "mrt.subtype %d %d %d", fam.Afi(), fam.Safi(), apN)
+					for j, e := range b.Entries {
+						want := "none"
+						if int(e.PeerIndex) < len(peers) {
+							want = c19SrvPeerEnt(peers[e.PeerIndex])
+						}
+						o.ask(want, "mrt.attr %s %d %d %s %d", c19SrvHex(tabBody), st, b.Prefix.Len(), c19SrvHex(body), j)
+					}
+				}
 				gotSub[fam.String()+" "+b.Prefix.String()] = append(gotSub[fam.String()+" "+b.Prefix.String()], int(st))
 				for _, e := range b.Entries {
 					if int(e.PeerIndex) >= len(peers) {
@@ -710,6 +808,22 @@ func c19Round(t *testing.T, o *vOut, r *vRand, round int) {
 					continue
 				}
 			}
+			if m != nil { // the model reads the record the loop wrote
+				b := m.Body.(*mrt.BGP4MPMessage)
+				bb, _ := b.BGPMessage.Serialize()
+				o.ask(fmt.Sprintf("msg %d %d %d %d %s %s %s", b.PeerAS, b.LocalAS, b.InterfaceIndex, b.AddressFamily, c19SrvHex(b.PeerIpAddress.AsSlice()),
+					c19SrvHex(b.LocalIpAddress.AsSlice()), c19SrvHex(bb)), "mrt.bgp4mp %d %s", h.SubType, c19SrvHex(tk[mrt.MRT_COMMON_HEADER_LEN:]))
+			}
+			{
+				a4, ap := 0, 0
+				if sn.src.as4 {
+					a4 = 1
+				}
+				if sn.addPath {
+					ap = 1
+				}
+				o.ask(fmt.Sprint(h.SubType), "mrt.bgp4mpsub %d %d", a4, ap)
+			}
 			wantSub := mrt.MESSAGE
 			switch {
 			case sn.addPath && sn.src.as4:
@@ -869,6 +983,9 @@ func c19Round(t *testing.T, o *vOut, r *vRand, round int) {
 			if err != nil {
 				o.fail("bmp-emit-unparseable", map[string]any{"message": c19SrvHex(tk), "err": err.Error()})
 				continue
+			}
+			if t := m.Header.Type; t == bmp.BMP_MSG_ROUTE_MONITORING || t == bmp.BMP_MSG_PEER_UP_NOTIFICATION || t == bmp.BMP_MSG_PEER_DOWN_NOTIFICATION {
+				o.ask(c19Msg2Str(m, addPathBoth(m.PeerHeader)), "bmp.msg2 %s", c19SrvHex(tk))
 			}
 			if b2, err := m.Serialize(); err != nil || !bytes.Equal(b2, tk) {
 				// Loc-RIB route monitoring needs the ADD-PATH option to re-serialise; compare those below by content
